@@ -14,7 +14,7 @@ MANIFEST = dict(
          "sketches) and comparing the complete public state, and by evaluating the model on the same programs inside Coq.",
     design_ref="DESIGN.md section 6, C12",
     note="Trusted: Coq kernel + vm_compute; model transcriptions; n = 0 (wraps to 2^64-1 windows of the empty key) is outside the "
-         "property's quantifier; theorems closed under the global context.",
+         "property's quantifier; theorems closed under the global context. Log theorems mention binary64 tables, so Print Assumptions lists the kernel's primitive float operations (not logical axioms).",
     technique="Coq proof (window enumeration lemma, fold/iter characterisation) + implementation-vs-loop and model correspondence")
 
 
